@@ -85,9 +85,27 @@ func v20gAggType(zctx *zed.Context, recs []v20gRec) zed.Type {
 	return typ
 }
 
+type v20gNames []string
+
+func (n v20gNames) has(s string) bool {
+	for _, x := range n {
+		if x == s {
+			return true
+		}
+	}
+	return false
+}
+
 // v20gCheckStream pulls one stream from the operator and checks it against
 // its input; sfx distinguishes the assertion ids of the later stream.
 func v20gCheckStream(zctx *zed.Context, op *Op, in []v20gRec, sfx string) bool {
+	return v20gCheckStreamWant(zctx, op, in, sfx, nil)
+}
+
+// v20gCheckStreamWant: want is what v20gAggType reports for in (nil: computed
+// here; the schedule variant computes it before the operator starts, so that
+// the harness's own map accesses are not scheduling points of the exploration).
+func v20gCheckStreamWant(zctx *zed.Context, op *Op, in []v20gRec, sfx string, want zed.Type) bool {
 	var got []zed.Value
 	for {
 		batch, err := op.Pull(false)
@@ -107,14 +125,18 @@ func v20gCheckStream(zctx *zed.Context, op *Op, in []v20gRec, sfx string) bool {
 	if len(got) != len(in) {
 		return false
 	}
-	want := v20gAggType(zctx, in)
+	if want == nil {
+		want = v20gAggType(zctx, in)
+	}
 	// every field name of the stream's input
-	seen := map[string]bool{}
+	// (name lists, not maps: a map access would be a scheduling point of the
+	// schedule variant)
+	var seen v20gNames
 	nseen := 0
 	for _, r := range in {
 		for _, f := range r.fields {
-			if !seen[f.name] {
-				seen[f.name] = true
+			if !seen.has(f.name) {
+				seen = append(seen, f.name)
 				nseen++
 			}
 		}
@@ -128,14 +150,14 @@ func v20gCheckStream(zctx *zed.Context, op *Op, in []v20gRec, sfx string) bool {
 			return false
 		}
 		// in order and lossless: output i carries input i's leaves, null elsewhere
-		has := map[string]bool{}
+		var has v20gNames
 		for _, f := range in[i].fields {
-			has[f.name] = true
+			has = append(has, f.name)
 			verif.Assert(vFieldIs(out, f.name, f.null, f.body), "field-preserved-in-order"+sfx)
 		}
 		for _, f := range rt.Fields {
-			if !has[f.Name] {
-				verif.Assert(seen[f.Name] && vFieldIs(out, f.Name, true, nil), "other-fields-null"+sfx)
+			if !has.has(f.Name) {
+				verif.Assert(seen.has(f.Name) && vFieldIs(out, f.Name, true, nil), "other-fields-null"+sfx)
 			}
 		}
 	}
@@ -184,13 +206,20 @@ func v20gRun(twoStreams bool, sched int) {
 	}
 	zctx := zed.NewContext()
 	saved := MemMaxBytes
-	MemMaxBytes = []int{1, 3, 1 << 20}[verif.Choose("memmax", 3)]
+	if sched > 0 {
+		MemMaxBytes = []int{1, 1 << 20}[verif.Choose("memmax", 2)]
+	} else {
+		MemMaxBytes = []int{1, 3, 1 << 20}[verif.Choose("memmax", 3)]
+	}
 	defer func() { MemMaxBytes = saved }()
 
 	var first []v20gRec
 	if twoStreams {
 		// the first stream only sets the scene: {a},{b} or {a,b},{b}
-		shape := v20gShapes[[]int{0, 2}[verif.Choose("shape", 2)]]
+		shape := v20gShapes[2]
+		if sched < 2 {
+			shape = v20gShapes[[]int{0, 2}[verif.Choose("shape", 2)]]
+		}
 		first = append(first, v20gMkRec(zctx, "p", shape, false))
 		first = append(first, v20gMkRec(zctx, "q", []string{"b"}, false))
 	} else {
@@ -204,7 +233,7 @@ func v20gRun(twoStreams bool, sched int) {
 	}
 	var second []v20gRec
 	if twoStreams {
-		if verif.Choose("second", 2) == 1 {
+		if sched > 1 || verif.Choose("second", 2) == 1 {
 			second = append(second, v20gMkRec(zctx, "s", []string{"c"}, true))
 		}
 		second = append(second, v20gMkRec(zctx, "t", []string{"a"}, true))
@@ -230,11 +259,18 @@ func v20gRun(twoStreams bool, sched int) {
 		streams = append(streams, [][]zed.Value{vals(second)})
 	}
 	parent := &v20gParent{streams: streams}
+	var wantFirst, wantSecond zed.Type
+	if sched > 0 {
+		wantFirst = v20gAggType(zctx, first)
+		if twoStreams {
+			wantSecond = v20gAggType(zctx, second)
+		}
+	}
 	rctx := runtime.NewContext(context.Background(), zctx)
 	op, err := New(rctx, parent)
 	verif.Assert(err == nil && op != nil, "new-no-error")
 
-	if !v20gCheckStream(zctx, op, first, "") {
+	if !v20gCheckStreamWant(zctx, op, first, "", wantFirst) {
 		return
 	}
 	verif.Reach("first-stream-done")
@@ -242,7 +278,7 @@ func v20gRun(twoStreams bool, sched int) {
 		verif.Reach("first-stream-spilled")
 	}
 	if twoStreams {
-		if !v20gCheckStream(zctx, op, second, "/second-stream") {
+		if !v20gCheckStreamWant(zctx, op, second, "/second-stream", wantSecond) {
 			return
 		}
 		verif.Reach("second-stream-done")
@@ -271,14 +307,14 @@ func VerifH_C20_O5b_fuse_op_second_stream() {
 	v20gRun(true, 0)
 }
 
-// verif:desc C20-O5s the fuse operator over two streams, same run and same assertions as VerifH_C20_O5b_fuse_op_second_stream (and, for its first stream, VerifH_C20_O5_fuse_op_exec), under EVERY goroutine schedule with at most 2 preemptions (thorough tier: 3) at the channel operations, selects, closes, lock/once operations and the goroutine start of the real Op.Pull/run/pullInput/pushOutput/sendResult code, with a bounded free choice of which runnable goroutine continues: what each stream is fused to (one output per input, in order, one type = what fuse() reports for that stream alone, fields preserved, no error, EOS) does not depend on how the operator's goroutine and the consumer interleave
-// verif:bounds first stream {a:string}|{a,b} then {b:string}, one batch or one per record; second stream optional {c:string} then {a:string}, one batch; concrete field bytes, the second stream's fields all non-null or all null (Choose); MemMaxBytes in {1, 3, 2^20}; preemption bound 2 (thorough: 3) - two goroutines only (the operator's and the consumer)
+// verif:desc C20-O5s the fuse operator over two streams, same run and same assertions as VerifH_C20_O5b_fuse_op_second_stream (and, for its first stream, VerifH_C20_O5_fuse_op_exec), under EVERY goroutine schedule with at most 1 preemption (thorough tier: 2) at the channel operations, selects, closes, atomics, map accesses, lock/once operations and the goroutine start of the real Op.Pull/run/pullInput/pushOutput/sendResult code and of what the operator's goroutine runs (Fuser, agg.Schema, spill.File through zngio, batch reference counts), with a bounded free choice of which runnable goroutine continues: what each stream is fused to (one output per input, in order, one type = what fuse() reports for that stream alone, fields preserved, no error, EOS) does not depend on how the operator's goroutine and the consumer interleave
+// verif:bounds first stream {a:string}|{a,b} then {b:string}, one batch or one per record; second stream optional {c:string} then {a:string}, one batch; concrete field bytes, the second stream's fields all non-null or all null (Choose); MemMaxBytes in {1 (every stream spilled), 2^20 (in memory)}; preemption bound 1 (thorough: 2, there with the first stream {a,b},{b} and the second {c},{a} only)
 // verif:outside as VerifH_C20_O5b_fuse_op_second_stream except that schedules are explored up to the bound; symbolic field contents (O5/O5b); field loads/stores are not preemption points (data-race freedom between sync points is assumed)
 // verif:unwind 64
 func VerifH_C20_O5s_fuse_op_schedules() {
 	if verif.Thorough() {
-		v20gRun(true, 3)
-	} else {
 		v20gRun(true, 2)
+	} else {
+		v20gRun(true, 1)
 	}
 }
